@@ -313,6 +313,6 @@ func c07Worker(sh *explore.Shard) {
 
 func init() {
 	Registry["C07"] = &Check{Level: "exploration", Worker: c07Worker, QuickBudget: 60 * time.Second, ThoroughBudget: 10 * time.Minute,
-		Rule: "all refgroup forests of <=2 (quick) / <=3 (thorough) user groups over 10 symbol shapes (nested, implicit parents, augmenting a built-in, named other/ignored/g.other) x 5 rule sets x display name, each in parent-first and child-first config order, x 4 selections, plus nesting depth 1..20 with implicit and explicit parents; real RefGroupBuilder + in-process scan of a 20-reference universe; JSON v1 tallies compared with the recursive definition of the statement, JSON v2 and the verbose table must be produced and agree. non-trivial = forests with >= 2 user groups and every nesting-depth case",
+		Rule:        "all refgroup forests of <=2 (quick) / <=3 (thorough) user groups over 10 symbol shapes (nested, implicit parents, augmenting a built-in, named other/ignored/g.other) x 5 rule sets x display name, each in parent-first and child-first config order, x 4 selections, plus nesting depth 1..20 with implicit and explicit parents; real RefGroupBuilder + in-process scan of a 20-reference universe; JSON v1 tallies compared with the recursive definition of the statement, JSON v2 and the verbose table must be produced and agree. non-trivial = forests with >= 2 user groups and every nesting-depth case",
 		Assumptions: []string{"refgroup configuration is served by a fake Configger implementing GetConfig's documented contract (C15 owns the real parser)"}}
 }
